@@ -44,4 +44,17 @@ theorem C10_writer_uses_entry_layout (sigS loc : States) (bits : Nat) (nums : Li
 example : expandEntry .two .nine 4 (alignEntry .two .two 4 (writeNState .two [0, 1, 0, 1] none)) =
     alignEntry .nine .two 4 (writeNState .two [0, 1, 0, 1] none) := by decide
 
+/-- **the reported timescale denotes the file's tick**: for every exponent an FST header may carry (-15 .. 0),
+`convert_timescale` does not panic and factor x unit = 10^exponent s, with factor 1, 10 or 100 -/
+theorem C10_timescale (e : Int) (h1 : -15 ≤ e) (h2 : e ≤ 0) :
+    ∃ f u, convertTimescale e = some (f, u) ∧ (f = 1 ∨ f = 10 ∨ f = 100) ∧ (u = 0 ∨ u = -3 ∨ u = -6 ∨ u = -9 ∨ u = -12 ∨ u = -15) ∧
+      (f : Int) * 10 ^ (u + 15).toNat = 10 ^ (e + 15).toNat := by
+  have : e = -15 ∨ e = -14 ∨ e = -13 ∨ e = -12 ∨ e = -11 ∨ e = -10 ∨ e = -9 ∨ e = -8 ∨ e = -7 ∨ e = -6 ∨ e = -5 ∨
+      e = -4 ∨ e = -3 ∨ e = -2 ∨ e = -1 ∨ e = 0 := by omega
+  rcases this with rfl | rfl | rfl | rfl | rfl | rfl | rfl | rfl | rfl | rfl | rfl | rfl | rfl | rfl | rfl | rfl <;>
+    exact ⟨_, _, rfl, by decide, by decide, by decide⟩
+
+/-- outside that range the code panics (exponent below -15) — finding-free only because FST writers never emit it -/
+example : convertTimescale (-16) = none ∧ convertTimescale (-5) = some (10, -6) := by decide
+
 end Wellen.Fst
